@@ -208,7 +208,7 @@ func termCase(c *Ctx, d *ref.Decl, spec string, argv []string, env map[string]st
 		bad = "undocumented outcome: " + obs.Summary()
 	}
 	if bad != "" && c.On("C03") {
-		c.Violation("C03", key, Case{"spec": spec, "argv": argv, "env": env}, "spec error with a position inside the string, acceptance, or a usage error", bad)
+		c.Violation("C03", key, Case{"spec": spec, "spec_hex": hx(spec), "argv": argv, "env": env}, "spec error with a position inside the string, acceptance, or a usage error", bad)
 	}
 	if c.WantSample(space) && (len(argv) > 0 || obs.SpecError) && len(spec) >= 3 {
 		c.Sample(space, Case{"spec": spec, "argv": argv, "env": envText(env), "outcome": obs.Summary()})
